@@ -382,9 +382,64 @@ func init() {
 	verifQueryFamilies = append(verifQueryFamilies, func() []string {
 		// the filters the cascade / restrict constraint builds for the fixed ids
 		var qs []string
-		for _, id := range []string{"x", "y", "xy", "z", "a", "b", "c"} {
+		for _, id := range []string{"x", "y", "xy", "z", "a", "ab", "b", "c"} {
 			qs = append(qs, vFBoss+` = "`+id+`"`)
 		}
 		return qs
+	})
+}
+
+// VerifC04_CascadeOverSelfAndCyclicReferences: boss references the emp store
+// itself (nullable fk constraint with cascading delete). Three emps reference
+// nothing, themselves or each other in every possible way, reference cycles
+// included; the first one is deleted. Exactly the transitive referrers go.
+func VerifC04_CascadeOverSelfAndCyclicReferences() {
+	cfg := vStoreCfg{fk: vFkConstraintCascade, nickNullable: true}
+	env := verifNewEnv(cfg)
+	defer env.close()
+	n := 3
+	boss := make([]int, n) // -1 nil, else index of the referenced emp
+	err := env.update(func(ctx MutateContext) error {
+		for i := 0; i < n; i++ {
+			if err := env.emp.Create(ctx, verifEmpFor(vIds[i], nil, cfg)); err != nil {
+				return err
+			}
+		}
+		return nil
+	})
+	verifrt.Assert(err == nil, "C04 cycle population setup succeeds")
+	for i := 0; i < n; i++ {
+		boss[i] = verifrt.Choose("boss", n+1) - 1
+		if boss[i] < 0 {
+			continue
+		}
+		b := vIds[boss[i]]
+		err := env.update(func(ctx MutateContext) error { return env.emp.Update(ctx, verifEmpFor(vIds[i], &b, cfg), nil) })
+		verifrt.Assert(err == nil, "C04 referencing an existing emp (itself included) is accepted")
+	}
+	gone := make([]bool, n)
+	gone[0] = true
+	for round := 0; round < n; round++ {
+		for i := 0; i < n; i++ {
+			if boss[i] >= 0 && gone[boss[i]] {
+				gone[i] = true
+			}
+		}
+	}
+	err = env.update(func(ctx MutateContext) error { return env.emp.DeleteById(ctx, vIds[0]) })
+	verifrt.Assert(err == nil, "C04 cascading delete over self / cyclic references succeeds")
+	env.view(func(tx *bbolt.Tx) {
+		for i := 0; i < n; i++ {
+			ent, found, ferr := env.emp.FindById(tx, vIds[i])
+			verifrt.Assert(ferr == nil && found == !gone[i], "C04 cascade over self / cyclic references deletes exactly the transitive referrers")
+			if found && !gone[i] {
+				var want *string
+				if boss[i] >= 0 {
+					s := vIds[boss[i]]
+					want = &s
+				}
+				verifrt.Assert(strPtrEq(ent.Boss, want), "C04 survivors keep their reference")
+			}
+		}
 	})
 }
